@@ -352,7 +352,7 @@ tzm_find_zn(const char *zn, size_t zz)
 	const char *const ep = zns + znz;
 
 	for (; p < ep && *p && (strncmp(p, zn, zz) || p[zz]); p += strlen(p), p++);
-	if (*p) {
+	if (p < ep && *p) {
 		/* found it, yay */
 		return p - zns;
 	}
@@ -360,8 +360,11 @@ tzm_find_zn(const char *zn, size_t zz)
 	if (p + zz + 4U >= ep) {
 		/* compute new p */
 		ptrdiff_t d = p - zns;
-		/* resize, double the size */
-		p = (zns = realloc(zns, znz *= 2U)) + d;
+		/* resize, double the size until the name fits */
+		do {
+			znz *= 2U;
+		} while (d + zz + 4U >= znz);
+		p = (zns = realloc(zns, znz)) + d;
 		memset(p, 0, (znz - (p - zns)) * sizeof(*zns));
 	}
 	/* really append now */
